@@ -131,9 +131,14 @@ def src_hash():
 
 
 def _gc(prefix, keep=3):
+    """remove old cache directories: only those not used for 3 hours, and
+    never the `keep` most recent ones (several checks / builders may be using
+    different snapshots at the same time)"""
     ds = sorted(glob.glob(os.path.join(BUILD, prefix + "*")), key=os.path.getmtime)
-    for d in ds[:-keep]:
-        shutil.rmtree(d, ignore_errors=True)
+    now = time.time()
+    for d in ds[:-max(keep, 40)]:
+        if now - os.path.getmtime(d) > 3 * 3600:
+            shutil.rmtree(d, ignore_errors=True)
 
 
 def snapshot():
@@ -170,6 +175,9 @@ def build_lib(san="asan"):
                     for f in sorted(fn):
                         if f.endswith(".cc") and "/test" not in dp and "/examples" not in dp:
                             ccs.append(os.path.join(dp, f))
+            if len(ccs) < 10:
+                shutil.rmtree(tmp, ignore_errors=True)
+                raise RuntimeError("snapshot %s is incomplete (%d .cc files): retry" % (snap, len(ccs)))
             flags = COMMON_FLAGS + SAN_FLAGS[san] + ["-I" + snap, "-isystem", os.path.join(snap, "third_party")]
 
             def comp(cc):
